@@ -7,6 +7,9 @@ import PqlModel.Props.C16RunIR
 import PqlModel.Props.C16IOIRTrees
 import PqlModel.Props.C16IOIR
 import PqlModel.Props.C16IOIRMake
+import PqlModel.Props.IRHeadlines
+import PqlModel.Props.IRHeadlinesIO
+import PqlModel.Props.C16StreamIR
 #print axioms Pql.C16.C16_statement_sim
 #print axioms Pql.C16.C16_statements_sim
 #print axioms Pql.C16.C16_output_monotone
@@ -93,3 +96,23 @@ import PqlModel.Props.C16IOIRMake
 #print axioms Pql.CliIOIR.C16_makeInput_ir
 #print axioms Pql.CliIOIR.C16_makeOutput_ir
 #print axioms Pql.CliIOIR.C16_isTerminal_ir
+#print axioms Pql.IRHead.C16_multi_concat_ir
+#print axioms Pql.IRHead.C16_multi_concat_ir_needs_fuel
+#print axioms Pql.IRHead.C16_run_spec_any_compile_ir
+#print axioms Pql.IRHead.C16_run_spec_ir
+#print axioms Pql.IRHead.C16_main_semantics_ir
+#print axioms Pql.IRHead.C16_last_terminated_or_not_ir
+#print axioms Pql.IRHead.C16_no_placeholder_ir
+#print axioms Pql.IRHead.C16_on_translated_code
+#print axioms Pql.StreamIR.C16_Read_ir_iterated_steps
+#print axioms Pql.StreamIR.C16_Read_ir_iterated_then_Close
+#print axioms Pql.StreamIR.C16_main_pipeline_ir
+#print axioms Pql.StreamIR.C16_main_pipeline_ir_closed
+#print axioms Pql.StreamIR.C16_main_pipeline_ir_semantics
+#print axioms Pql.StreamIR.C16_main_pipeline_ir_chunking
+#print axioms Pql.StreamIR.C16_main_pipeline_ir_needs_fuel
+#print axioms Pql.StreamIR.C16_main_pipeline_ir_needs_calls
+#print axioms Pql.StreamIR.C16_main_pipeline_ir_needs_clean
+#print axioms Pql.StreamIR.C16_Read_ir_iterated_needs_nodup
+#print axioms Pql.StreamIR.C16_Read_ir_iterated_needs_denote
+#print axioms Pql.StreamIR.C16_Read_ir_iterated_needs_fuel
